@@ -256,13 +256,13 @@ func c13TypedOf[T any](gen func(cfg c13Config, r *rand.Rand) []T) c13Typed {
 			buf := make([]T, 37)
 			for spins := 0; spins < 1<<16; spins++ {
 				n, err := r.Read(buf)
+				if err != nil && err != io.EOF {
+					return out, err
+				}
 				out = append(out, buf[:n]...)
 				buf = make([]T, 37)
 				if err == io.EOF {
 					return out, nil
-				}
-				if err != nil {
-					return out, err
 				}
 			}
 			return out, errors.New("c13: reader does not terminate")
@@ -300,12 +300,12 @@ func c13TypedOf[T any](gen func(cfg c13Config, r *rand.Rand) []T) c13Typed {
 			for spins := 0; spins < 1<<16; spins++ {
 				buf := make([]T, 19)
 				n, err := r.Read(buf)
+				if err != nil && err != io.EOF {
+					return out, err
+				}
 				out = append(out, buf[:n]...)
 				if err == io.EOF {
 					return out, nil
-				}
-				if err != nil {
-					return out, err
 				}
 			}
 			return out, errors.New("c13: reader does not terminate")
@@ -512,14 +512,14 @@ func c13ReadRows(rows parquet.Rows, from int64) (any, error) {
 	buf := make([]parquet.Row, 29)
 	for spins := 0; spins < 1<<16; spins++ {
 		n, err := rows.ReadRows(buf)
+		if err != nil && err != io.EOF {
+			return out, err // the rows of the calls that succeeded (the failing call's own rows are not judged)
+		}
 		for i := 0; i < n; i++ {
 			out = append(out, buf[i].Clone())
 		}
 		if err == io.EOF {
 			return out, nil
-		}
-		if err != nil {
-			return out, err
 		}
 	}
 	return out, errors.New("c13: reader does not terminate")
@@ -602,6 +602,41 @@ func c13Same(a, b any) bool {
 		return true
 	}
 	return reflect.DeepEqual(a, b)
+}
+
+// c13IsPrefix: what the successful reads delivered before an error (got) is a prefix of the pristine
+// result (want). Results that are not row / value / typed-row slices (or nil) are not judged.
+func c13IsPrefix(got, want any) bool {
+	if got == nil {
+		return true
+	}
+	switch g := got.(type) {
+	case []parquet.Row:
+		w, ok := want.([]parquet.Row)
+		return !ok || (len(g) <= len(w) && c13Same(g, w[:len(g)]))
+	case []string:
+		w, ok := want.([]string)
+		if !ok {
+			return true
+		}
+		if len(g) > len(w) {
+			return false
+		}
+		for i := range g {
+			if g[i] != w[i] {
+				return false
+			}
+		}
+		return true
+	}
+	gv, wv := reflect.ValueOf(got), reflect.ValueOf(want)
+	if gv.Kind() != reflect.Slice || wv.Kind() != reflect.Slice || gv.Type() != wv.Type() {
+		return true
+	}
+	if gv.Len() > wv.Len() {
+		return false
+	}
+	return gv.Len() == 0 || reflect.DeepEqual(gv.Interface(), wv.Slice(0, gv.Len()).Interface())
 }
 
 // ---------------------------------------------------------------- retries on the same reader
@@ -1185,6 +1220,8 @@ func c13Key(p c13Page, a c13Access, class string) string {
 		what = "panic"
 	case "other-error":
 		what = "wrong-error"
+	case "wrong-values-before-error":
+		what = class
 	}
 	return what + "-" + kind + "-" + a.Path
 }
@@ -1207,7 +1244,7 @@ func c13Faults(p c13Page, tier string, r *rand.Rand) []c13Fault {
 	thorough := tier == "thorough"
 	// single bits
 	pos := map[int]bool{}
-	if thorough && p.BodyLen <= 48 {
+	if thorough && p.BodyLen <= 32 {
 		for i := 0; i < nbits; i++ {
 			pos[i] = true
 		}
@@ -1252,6 +1289,9 @@ func c13Faults(p c13Page, tier string, r *rand.Rand) []c13Fault {
 			continue
 		}
 		mk(r.Intn(nbits-w+1), w)
+		if thorough && w != 2 && w != 8 && w != 9 && w != 17 && w != 31 && w != 32 {
+			continue // thorough: every width once; the boundary placements stay with the six widths of quick
+		}
 		switch r.Intn(3) {
 		case 0:
 			mk(0, w)
@@ -1516,7 +1556,15 @@ func c13RunJob(job c13Job, col *c13Collector) {
 					col.hist("flips.region", "values")
 				}
 				modelSeen := map[string]bool{}
-				for _, a := range env.accesses(p, rr) {
+				accs := env.accesses(p, rr)
+				firstSeek := int64(-1)
+				for _, a := range accs {
+					if a.K >= 0 {
+						firstSeek = a.K
+						break
+					}
+				}
+				for _, a := range accs {
 					if len(ft.Paths) > 0 && !c13Contains(ft.Paths, a.Path) {
 						continue
 					}
@@ -1524,8 +1572,24 @@ func c13RunJob(job c13Job, col *c13Collector) {
 					if async && job.NoAsync {
 						continue
 					}
-					if len(ft.Paths) == 0 && c13IsEntryPath(a.Path) && !it.first && i%3 != 0 {
-						continue
+					// The position of the fault matters to the loader and, where the loader lets it through, to the
+					// decoder — not to the layers above. Every fault runs through the core paths (sequential and
+					// first-seek-target reads of pages and rows, ReadDictionary); the other paths take the first
+					// fault of each page and a deterministic share of the rest.
+					if len(ft.Paths) == 0 && !it.first && !c13CorePath(a, firstSeek) {
+						share := 1 // quick: every fault through the classical paths
+						if c13IsEntryPath(a.Path) {
+							share = 3
+						}
+						if job.Tier == "thorough" {
+							share = 6
+							if c13IsEntryPath(a.Path) {
+								share = 12
+							}
+						}
+						if (i+int(a.K)+len(a.Path))%share != 0 {
+							continue
+						}
 					}
 					rec.Paths = append(rec.Paths, fmt.Sprintf("%s@%d", a.Path, a.K))
 					if job.Trace || async {
@@ -1548,6 +1612,10 @@ func c13RunJob(job c13Job, col *c13Collector) {
 						oc = c13Outcome{"panic", pn, false}
 					case err != nil:
 						oc = c13ErrOutcome(err)
+						if oc.Class == "detected" && !c13IsPrefix(got, want) {
+							// reads that SUCCEEDED before the corruption was reported delivered other values
+							oc = c13Outcome{"wrong-values-before-error", oc.Err, oc.CRC}
+						}
 					case c13Same(got, want):
 						oc = c13Outcome{Class: "silent-same"}
 					default:
@@ -1576,6 +1644,8 @@ func c13RunJob(job c13Job, col *c13Collector) {
 							what += " panicked: " + oc.Err
 						case "hang":
 							what += " does not terminate"
+						case "wrong-values-before-error":
+							what += " reported the corruption, but the reads that succeeded before it returned values that are not the pristine ones: " + oc.Err
 						default:
 							what += " failed with an error that is not ErrCorrupted: " + oc.Err
 						}
@@ -1673,6 +1743,17 @@ func c13RunJob(job c13Job, col *c13Collector) {
 }
 
 func c13SampleIndex(n int) int { return n / 2 }
+
+// c13CorePath: the paths every enumerated fault goes through
+func c13CorePath(a c13Access, firstSeek int64) bool {
+	switch a.Path {
+	case "rows-seq", "pages-seq", "read-dictionary":
+		return true
+	case "rows-seek", "pages-seek":
+		return a.K == firstSeek
+	}
+	return false
+}
 
 func c13Contains(xs []string, x string) bool {
 	for _, y := range xs {
